@@ -255,15 +255,22 @@ func jobsFor(prop, tier string) []*Job {
 	case "C07":
 		for n := 2; n <= nmax(0, 5, 6); n++ {
 			for z := 0; z <= 1; z++ {
-				if z == 1 && n > 4 && !thorough {
+				if z == 1 && n > nmax(0, 4, 5) {
 					continue
 				}
 				add("frag/A", "ZZ_C07_amode", []string{"frag"}, n, z)
 			}
 		}
 		for t := 1; t <= 15; t++ {
-			for _, sh := range smallWireShapes(t, false)[:1] {
+			shapes := smallWireShapes(t, false)
+			if !thorough {
+				shapes = shapes[:1]
+			}
+			for i, sh := range shapes {
 				add("frag/S/"+tn(t), "ZZ_C07_smode", []string{"frag"}, append([]int{0}, sh.Args()...)...)
+				if thorough && i == 0 {
+					add("frag/S/"+tn(t), "ZZ_C07_smode", []string{"frag"}, append([]int{1}, sh.Args()...)...)
+				}
 			}
 		}
 	case "C08":
